@@ -385,7 +385,10 @@ def tail_move(ct: Container, rep, rule="tail-move-order", shift_rule="shift-cons
     rd_name = None
     if isinstance(rd.stmt, ast.Assign) and isinstance(rd.stmt.targets[0], ast.Name):
         rd_name = rd.stmt.targets[0].id
-    if rd_name is not None and norm(wr.value) == rd_name:
+    if rd_name is not None and norm(wr.value) == rd_name and rd.call is not None and rd.stmt.value is not rd.call:
+        rep.fail(rule, MOD(ct), fq, rd.stmt, f"the bytes moved up are `{norm(rd.stmt.value)[:80]}`, not simply everything after the removed block: under some condition the tail is dropped or altered",
+                 construct=f"{fq} tail bytes conditional")
+    elif rd_name is not None and norm(wr.value) == rd_name:
         rep.ok(rule, f"{fq}: bytes written back are the bytes read (`{rd_name}`)")
     else:
         rep.fail(rule, MOD(ct), fq, wr.stmt, f"tail write emits `{norm(wr.value)}`, not the bytes read by `{norm(head(rd.stmt))}`")
@@ -847,3 +850,22 @@ def get_block_reads_disk(ct: Container, rep, rule="read-through-handle"):
         rep.ok(rule, f"{fq}: decoder class and format are taken from the same entry that supplies the offset", nontrivial=True)
     else:
         rep.fail(rule, MOD(ct), fq, d.stmt, f"decoder class / format / offset are not all taken from the same entry `{ent}`")
+    # every path that returns a block returns what was decoded ON THAT PATH (not an object remembered from an earlier call, which a
+    # mutation in between makes stale), and get_block itself keeps nothing in the object
+    from .facts import path_returns, self_mutations
+    nret = 0
+    for pe in path_returns(ff.f.node):
+        if pe.kind == "raise":
+            continue
+        muts = self_mutations(pe.effects, ff.f.self_name or "self")
+        if muts:
+            rep.fail(rule, MOD(ct), fq, muts[0], f"`{norm(head(muts[0]))[:70]}`: reading a block changes the Tdf object (a cache or a field of the table that is not written back): "
+                     "what the object reports can then differ from the bytes on disk", construct=f"{fq} stores into the object")
+        if pe.kind != "return" or pe.value is None:
+            continue
+        nret += 1
+        builds = [x for x in ast.walk(pe.value) if isinstance(x, ast.Call) and isinstance(x.func, ast.Attribute) and x.func.attr == "_build" and x.args and ct.is_handle(x.args[0])]
+        if not builds:
+            rep.fail(rule, MOD(ct), fq, pe.node, f"a path returns `{norm(pe.value)[:70]}`, which is not decoded from the handle on that path", construct=f"{fq} returns without decoding")
+    if nret:
+        rep.ok(rule, f"{fq}: {nret} returning path(s) each decode from the handle; nothing is stored into the object")
